@@ -33,6 +33,44 @@ import (
 type c15state struct {
 	c   *state.Checkpoint
 	fed []string
+	// the branch-wide tally kept by the harness itself from the op history (uint64 like the
+	// chain's), and the status; what the oracle compares the implementation against
+	tally  map[string]uint64
+	status state.CheckpointStatus
+	epoch  uint64
+}
+
+// expected ranking from the harness's own tally: keys with tally >= min, votes desc, key desc
+func (st *c15state) expectedAll() []ecPair {
+	if st.status == state.Growing {
+		return nil
+	}
+	var l []ecPair
+	for k, v := range st.tally {
+		if v >= consensus.ActiveNetParams.MinValidatorVoteNum {
+			l = append(l, ecPair{k, v})
+		}
+	}
+	sort.Slice(l, func(i, j int) bool {
+		if l[i].val != l[j].val {
+			return l[i].val > l[j].val
+		}
+		return l[i].key > l[j].key
+	})
+	return l
+}
+
+// expected effective validators (key by order) from the harness's own tally
+func (st *c15state) expectedEff() []string {
+	all := st.expectedAll()
+	var keys []string
+	if len(all) == 0 {
+		return st.fed
+	}
+	for i := 0; i < len(all) && i < consensus.MaxNumOfValidators; i++ {
+		keys = append(keys, all[i].key)
+	}
+	return keys
 }
 
 func c15clone(c *state.Checkpoint, rng func(n int, swap func(i, j int))) *state.Checkpoint {
@@ -98,14 +136,24 @@ func c15line(c *Ctx, st *c15state, line string) {
 		}
 		ecSetParams(u(w[1]), u(w[2]), u(w[3]), st.fed)
 		st.c = &state.Checkpoint{Votes: map[string]uint64{}, Rewards: map[string]uint64{}}
+		st.tally, st.status, st.epoch = map[string]uint64{}, state.Growing, u(w[3])
 		c.Op(line, "ok")
 	case "ckpt":
 		st.c = &state.Checkpoint{Height: u(w[2]), Timestamp: u(w[3]), Status: ecStatus(w[1]), Votes: ecMap(ecParsePairs(w[4])), Rewards: map[string]uint64{}}
 		st.c.Hash = bc.Hash{V0: st.c.Height, V1: 15}
+		st.tally, st.status = ecMap(ecParsePairs(w[4])), ecStatus(w[1])
 		c.Op(line, "ok")
 	case "new":
 		st.c = state.NewCheckpoint(st.c)
+		st.status = state.Growing
 		c.Op(line, ecSortedMap(st.c.Votes))
+		// the tally is a property of the branch: an epoch boundary must not change any non-zero entry
+		for k, v := range st.tally {
+			if v != 0 && st.c.Votes[k] != v {
+				c.Fail("NewCheckpoint does not carry a tally over the epoch boundary", fmt.Sprintf("key %s: branch tally %d, new checkpoint has %d", k, v, st.c.Votes[k]))
+				break
+			}
+		}
 		for k, v := range st.c.Votes {
 			if v == 0 {
 				c.Fail("NewCheckpoint keeps a zero vote entry", k)
@@ -136,25 +184,43 @@ func c15line(c *Ctx, st *c15state, line string) {
 		if res == "" {
 			sub = st.c.VerifValidatorReward()
 			res = ecStatusName(st.c.Status) + " " + ecSortedMap(st.c.Votes)
+			// the harness's own tally (vetoes then vote outputs, transaction by transaction)
+			for _, t := range txs {
+				for _, v := range t.vetoes {
+					if st.tally[v.key] > v.val {
+						st.tally[v.key] -= v.val
+					} else {
+						delete(st.tally, v.key)
+					}
+				}
+				for _, v := range t.votes {
+					st.tally[v.key] += v.val
+				}
+			}
+			if st.epoch != 0 && height%st.epoch == 0 {
+				st.status = state.Unjustified
+			}
 		}
 		c.Op(fmt.Sprintf("apply %d %d %d %s", height, ts, sub, suffix), res)
 		c.Count("apply/" + strings.Fields(res)[0])
 	case "all":
 		ref := c15validators(st.c.AllValidators())
 		c.Op(line, ref)
-		// oracle
+		// oracle: against the ranking computed from the harness's OWN branch-wide tally
 		vs := st.c.AllValidators()
-		want := 0
-		for _, v := range st.c.Votes {
-			if v >= consensus.ActiveNetParams.MinValidatorVoteNum && st.c.Status != state.Growing {
-				want++
+		exp := st.expectedAll()
+		if len(vs) != len(exp) {
+			c.Fail("AllValidators: wrong member count", fmt.Sprintf("%d returned, %d keys qualify by the branch tally (%s)", len(vs), len(exp), ecPairs(exp)))
+		} else {
+			for i, v := range vs {
+				if v.PubKey != exp[i].key || v.VoteNum != exp[i].val {
+					c.Fail("AllValidators: not the ranking of the branch tally", fmt.Sprintf("position %d: got %s:%d want %s:%d", i, v.PubKey, v.VoteNum, exp[i].key, exp[i].val))
+					break
+				}
 			}
 		}
-		if len(vs) != want {
-			c.Fail("AllValidators: wrong member count", fmt.Sprintf("%d returned, %d keys qualify", len(vs), want))
-		}
 		for i, v := range vs {
-			if st.c.Votes[v.PubKey] != v.VoteNum || v.VoteNum < consensus.ActiveNetParams.MinValidatorVoteNum {
+			if v.VoteNum < consensus.ActiveNetParams.MinValidatorVoteNum {
 				c.Fail("AllValidators: member does not qualify", v.PubKey)
 			}
 			if i > 0 {
@@ -204,6 +270,19 @@ func c15line(c *Ctx, st *c15state, line string) {
 			}
 			c.Count(fmt.Sprintf("eff/n=%d", n))
 		}
+		if !(len(st.expectedAll()) == 0 && c15dupFed(st.fed)) {
+			want := st.expectedEff()
+			if len(m) != len(want) {
+				c.Fail("EffectiveValidators: not the validators of the branch tally", fmt.Sprintf("got %s, want keys %v", ref, want))
+			} else {
+				for i, k := range want {
+					if v, ok := m[k]; !ok || v.Order != i {
+						c.Fail("EffectiveValidators: not the validators of the branch tally", fmt.Sprintf("got %s, want keys %v", ref, want))
+						break
+					}
+				}
+			}
+		}
 		for k := 0; k < 8; k++ {
 			if got := c15effective(c15clone(st.c, shuffle)); got != ref {
 				c.Fail("EffectiveValidators: depends on map order", ref+" vs "+got)
@@ -215,10 +294,11 @@ func c15line(c *Ctx, st *c15state, line string) {
 		c.Op(line, ref)
 		I := consensus.ActiveNetParams.BlockTimeInterval
 		start := new(big.Int).Add(new(big.Int).SetUint64(st.c.Timestamp), new(big.Int).SetUint64(I))
-		n := len(st.c.EffectiveValidators())
+		wantEff := st.expectedEff()
+		n := len(wantEff)
 		t := new(big.Int).SetUint64(ts)
 		roundOK := n > 0 && I > 0 && new(big.Int).Mul(big.NewInt(int64(n)), new(big.Int).SetUint64(I)).IsUint64() && start.IsUint64()
-		if t.Cmp(start) >= 0 && roundOK && !(len(st.c.AllValidators()) == 0 && c15dupFed(st.fed)) {
+		if t.Cmp(start) >= 0 && roundOK && !(len(st.expectedAll()) == 0 && c15dupFed(st.fed)) {
 			slot := new(big.Int).Sub(t, start)
 			slot.Div(slot, new(big.Int).SetUint64(I))
 			slot.Mod(slot, big.NewInt(int64(n)))
@@ -233,6 +313,8 @@ func c15line(c *Ctx, st *c15state, line string) {
 				c.Fail("GetValidator: slot order not carried by exactly one validator", fmt.Sprintf("t=%d order=%s count=%d", ts, slot, cnt))
 			} else if len(f) != 3 || f[1] != slot.String() {
 				c.Fail("GetValidator: wrong slot", fmt.Sprintf("t=%d want order %s got %q", ts, slot, ref))
+			} else if f[0] != ecKey(wantEff[slot.Int64()]) {
+				c.Fail("GetValidator: not the proposer the branch tally schedules", fmt.Sprintf("t=%d slot %s: got %s want %s", ts, slot, f[0], wantEff[slot.Int64()]))
 			}
 			for k := 0; k < 4; k++ {
 				if got := c15get(c15clone(st.c, shuffle), ts); got != ref {
@@ -416,9 +498,85 @@ func c15case(c *Ctx) []string {
 	return ls
 }
 
+// multi-epoch histories: keys reach MinValidatorVoteNum only by accumulation ACROSS epoch
+// boundaries, partial vetoes leave remainders below the minimum, single votes are smaller than
+// the minimum (mainnet-like 1e14 vs 6e13)
+func c15multi(c *Ctx) []string {
+	var ls []string
+	interval := uint64(6000)
+	min := []uint64{100000000000000, 100000000000000, 1000}[c.Rng.Intn(3)]
+	epoch := []uint64{2, 3, 4}[c.Rng.Intn(3)]
+	fed := fmt.Sprintf("%x", append(make([]byte, 63), 0xfe))
+	ls = append(ls, fmt.Sprintf("reset %d %d %d %d %s", interval, min, epoch, consensus.MaxNumOfValidators, fed))
+	keys := c15keys(c)
+	if len(keys) > 8 {
+		keys = keys[:8]
+	}
+	frac := func() uint64 { // a vote smaller than the minimum
+		return min / 10 * uint64([]int{3, 4, 5, 6, 6, 7, 9}[c.Rng.Intn(7)])
+	}
+	tally := map[string]uint64{}
+	var votes []ecPair
+	for _, k := range keys {
+		if c.Rng.Intn(2) == 0 {
+			v := frac()
+			votes = append(votes, ecPair{k, v})
+			tally[k] = v
+		}
+	}
+	height := uint64(c.Rng.Intn(5)) * epoch
+	ts := uint64(1600000000000) + uint64(c.Rng.Intn(1000000))
+	ls = append(ls, fmt.Sprintf("ckpt j %d %d %s", height, ts, ecPairs(votes)))
+	for e, ne := 0, 3+c.Rng.Intn(3); e < ne; e++ {
+		ls = append(ls, "new")
+		if c.Rng.Intn(3) == 0 {
+			ls = append(ls, "all", "eff") // Growing: federation
+		}
+		for b := uint64(0); b < epoch; b++ {
+			height++
+			ts += interval
+			var sb strings.Builder
+			fmt.Fprintf(&sb, "apply %d %d 0 0:51 T - - 0", height, ts)
+			for t, nt := 0, c.Rng.Intn(3); t < nt; t++ {
+				var ve, vo []ecPair
+				k := keys[c.Rng.Intn(len(keys))]
+				switch c.Rng.Intn(5) {
+				case 0:
+					// partial veto leaving a remainder below the minimum
+					if tally[k] > min/10*4 {
+						a := tally[k] - min/10*uint64(1+c.Rng.Intn(4))
+						ve = append(ve, ecPair{k, a})
+						tally[k] -= a
+					}
+				case 1:
+					if tally[k] > 0 && c.Rng.Intn(2) == 0 {
+						ve = append(ve, ecPair{k, tally[k]}) // full veto
+						delete(tally, k)
+					}
+				}
+				for i, n := 0, 1+c.Rng.Intn(2); i < n; i++ {
+					k2 := keys[c.Rng.Intn(len(keys))]
+					v := frac()
+					vo = append(vo, ecPair{k2, v})
+					tally[k2] += v
+				}
+				fmt.Fprintf(&sb, " T %s %s %d", ecPairs(ve), ecPairs(vo), c.Rng.Intn(1000))
+			}
+			ls = append(ls, sb.String())
+		}
+		// the finished epoch's checkpoint decides the next epoch's validators and slots
+		ls = append(ls, "all", "eff")
+		start := ts + interval
+		for s := 0; s < 4; s++ {
+			ls = append(ls, fmt.Sprintf("get %d", start+uint64(c.Rng.Intn(25))*interval+uint64(c.Rng.Intn(int(interval)))))
+		}
+	}
+	return ls
+}
+
 func runC15(c *Ctx) {
-	c.Rule = "vote/veto histories over 4-16 keys (64-byte keys differing in first/last bytes plus short keys for prefix order), vote totals clustered at MinValidatorVoteNum (ties, 0, 2^64-1), > 10 candidates, vetoes exceeding votes, 0-4 federation keys (sometimes duplicated / none), all four checkpoint states; each checkpoint is queried with AllValidators, EffectiveValidators and GetValidator(t) at slot boundaries +-1 over three rounds, before the epoch start and at extreme timestamps; every query is repeated on maps rebuilt in shuffled order"
-	st := &c15state{c: &state.Checkpoint{Votes: map[string]uint64{}, Rewards: map[string]uint64{}}}
+	c.Rule = "vote/veto histories over 4-16 keys (64-byte keys differing in first/last bytes plus short keys for prefix order), vote totals clustered at MinValidatorVoteNum (ties, 0, 2^64-1), > 10 candidates, vetoes exceeding votes, 0-4 federation keys (sometimes duplicated / none), all four checkpoint states; each checkpoint is queried with AllValidators, EffectiveValidators and GetValidator(t) at slot boundaries +-1 over three rounds, before the epoch start and at extreme timestamps; every query is repeated on maps rebuilt in shuffled order; every third case is a multi-epoch history (3-5 epochs, NewCheckpoint at each boundary) in which single votes are 0.3-0.9 of MinValidatorVoteNum (1e14 or 1000), keys qualify only by accumulation across epoch boundaries, partial vetoes leave remainders below the minimum; the oracle compares AllValidators / EffectiveValidators / the scheduled proposer with the ranking computed from the harness's own branch-wide tally"
+	st := &c15state{c: &state.Checkpoint{Votes: map[string]uint64{}, Rewards: map[string]uint64{}}, tally: map[string]uint64{}}
 	replaying := c.Replay != ""
 	lines := c.CorpusLines()
 	if replaying {
@@ -431,7 +589,12 @@ func runC15(c *Ctx) {
 		return
 	}
 	for i := 0; i < c.N; i++ {
-		for _, l := range c15case(c) {
+		ls := c15case
+		if i%3 == 2 {
+			ls = c15multi
+			c.Count("gen/multi-epoch")
+		}
+		for _, l := range ls(c) {
 			c15line(c, st, l)
 		}
 		c.Distinct(fmt.Sprintf("case-%d", i))
